@@ -355,10 +355,115 @@ pub open spec fn set_effect(x: AArch64Register, value: Expression, b0: Block, b1
     &&& b1.instructions@.len() == b0.instructions@.len() + 1
     &&& b1.instructions@.last().operation matches Operation::Assign { dst, src }
     &&& b1.pushed_op(b0, Operation::Assign { dst, src })
-    &&& dst == reg_scalar(f)
+    &&& dst == reg_scalar(f) && dst.name@ == f.name@
     &&& expr_wf(src) && expr_bits(src) == f.bits
     &&& (expr_bits(value) == f.bits ==> src == value)
     &&& forall|env: Env| env_sorted(env) ==> #[trigger] write_ok(x, value, src, env)
+}
+
+
+// ---- the scalar names are pairwise different (facts about string literals, proved from their characters) -----------
+pub proof fn lemma_names_revealed()
+    ensures
+        forall|n: int| 0 <= n <= 9 ==> (#[trigger] xname(n)).len() == 2 && xname(n)[0] == 'x',
+        forall|n: int| 10 <= n <= 30 ==> (#[trigger] xname(n)).len() == 3 && xname(n)[0] == 'x',
+        xname(31).len() == 2 && xname(31)[0] == 's' && xname(31)[1] == 'p',
+        xname(32).len() == 3 && xname(32)[0] == 'x' && xname(32)[1] == 'z' && xname(32)[2] == 'r',
+        "n"@.len() == 1 && "z"@.len() == 1 && "c"@.len() == 1 && "v"@.len() == 1,
+        "n"@[0] == 'n' && "z"@[0] == 'z' && "c"@[0] == 'c' && "v"@[0] == 'v',
+        forall|n: int| 0 <= n <= 30 ==> (#[trigger] xname(n))[1] != 'z',
+{
+    reveal_strlit("x0");
+    reveal_strlit("x1");
+    reveal_strlit("x2");
+    reveal_strlit("x3");
+    reveal_strlit("x4");
+    reveal_strlit("x5");
+    reveal_strlit("x6");
+    reveal_strlit("x7");
+    reveal_strlit("x8");
+    reveal_strlit("x9");
+    reveal_strlit("x10");
+    reveal_strlit("x11");
+    reveal_strlit("x12");
+    reveal_strlit("x13");
+    reveal_strlit("x14");
+    reveal_strlit("x15");
+    reveal_strlit("x16");
+    reveal_strlit("x17");
+    reveal_strlit("x18");
+    reveal_strlit("x19");
+    reveal_strlit("x20");
+    reveal_strlit("x21");
+    reveal_strlit("x22");
+    reveal_strlit("x23");
+    reveal_strlit("x24");
+    reveal_strlit("x25");
+    reveal_strlit("x26");
+    reveal_strlit("x27");
+    reveal_strlit("x28");
+    reveal_strlit("x29");
+    reveal_strlit("x30");
+    reveal_strlit("sp"); reveal_strlit("xzr");
+    reveal_strlit("n"); reveal_strlit("z"); reveal_strlit("c"); reveal_strlit("v");
+}
+
+/// "xzr" (the scratch scalar a write to XZR / WZR ends up in) is not the name of any architectural scalar
+pub proof fn lemma_xzr_scratch()
+    ensures !is_arch_name("xzr"@), xname(32) == "xzr"@,
+{
+    lemma_names_revealed();
+    assert forall|n: int| 0 <= n <= 31 implies "xzr"@ != #[trigger] xname(n) by {
+        if n <= 30 { assert(xname(n)[1] != 'z'); }
+    }
+}
+
+/// different integer registers (and the flags) live in scalars with different names
+pub proof fn lemma_xname_injective()
+    ensures
+        forall|n: int, m: int| 0 <= n <= 32 && 0 <= m <= 32 && n != m ==> #[trigger] xname(n) != #[trigger] xname(m),
+        forall|n: int| 0 <= n <= 32 ==> (#[trigger] xname(n)) != "n"@ && xname(n) != "z"@ && xname(n) != "c"@ && xname(n) != "v"@,
+        "n"@ != "z"@ && "n"@ != "c"@ && "n"@ != "v"@ && "z"@ != "c"@ && "z"@ != "v"@ && "c"@ != "v"@,
+{
+    reveal_strlit("x0");
+    reveal_strlit("x1");
+    reveal_strlit("x2");
+    reveal_strlit("x3");
+    reveal_strlit("x4");
+    reveal_strlit("x5");
+    reveal_strlit("x6");
+    reveal_strlit("x7");
+    reveal_strlit("x8");
+    reveal_strlit("x9");
+    reveal_strlit("x10");
+    reveal_strlit("x11");
+    reveal_strlit("x12");
+    reveal_strlit("x13");
+    reveal_strlit("x14");
+    reveal_strlit("x15");
+    reveal_strlit("x16");
+    reveal_strlit("x17");
+    reveal_strlit("x18");
+    reveal_strlit("x19");
+    reveal_strlit("x20");
+    reveal_strlit("x21");
+    reveal_strlit("x22");
+    reveal_strlit("x23");
+    reveal_strlit("x24");
+    reveal_strlit("x25");
+    reveal_strlit("x26");
+    reveal_strlit("x27");
+    reveal_strlit("x28");
+    reveal_strlit("x29");
+    reveal_strlit("x30");
+    reveal_strlit("sp"); reveal_strlit("xzr");
+    reveal_strlit("n"); reveal_strlit("z"); reveal_strlit("c"); reveal_strlit("v");
+    assert forall|n: int, m: int| 0 <= n <= 32 && 0 <= m <= 32 && n != m implies #[trigger] xname(n) != #[trigger] xname(m) by {
+        let a = xname(n); let b = xname(m);
+        if a.len() == b.len() {
+            assert(a[0] != b[0] || a[1] != b[1] || (a.len() == 3 && a[2] != b[2]));
+        }
+    }
 }
 
 /// the expression assigned by the last instruction of the block
@@ -462,12 +567,15 @@ impl AArch64Register {
                 lemma_read_full(*self, env);
             }
         }
-        if self.bad64_reg != self.bad64_full_reg && !is_zero_reg(self.bad64_reg) {
-            assert forall|ef: Expression, env: Env| (env_sorted(env) && expr_wf(ef) && expr_bits(ef) == f.bits && eval_spec(ef, env) == reg_read(f, env))
-                implies (self.bits == f.bits ==> #[trigger] eval_spec(ef, env) == reg_read(*self, env))
-                    && (self.bits < f.bits ==> #[trigger] eval_spec(Expression::Trun(self.bits, Box::new(ef)), env) == reg_read(*self, env)) by {
-                lemma_read_low(*self, ef, env);
-            }
+    }
+//@ after 0 `let full_reg_scalar = self.get_full().get();`
+    proof {
+        let f = self.full_rec();
+        assert forall|env: Env| env_sorted(env) implies (self.bits == f.bits ==> #[trigger] eval_spec(full_reg_scalar, env) == reg_read(*self, env)) by {
+            lemma_read_low(*self, full_reg_scalar, env);
+        }
+        assert forall|env: Env| env_sorted(env) implies (self.bits < f.bits ==> #[trigger] eval_spec(Expression::Trun(self.bits, Box::new(full_reg_scalar)), env) == reg_read(*self, env)) by {
+            lemma_read_low(*self, full_reg_scalar, env);
         }
     }
 //@ end
@@ -482,6 +590,11 @@ impl AArch64Register {
     ensures
         /*@wf*/ final(block).block_wf(),
         /*@effect*/ set_effect(*self, value, *old(block), *final(block)),
+        /*@w_clears_upper*/ (gp_class(self.bad64_reg) matches Some((is64, n)) && expr_bits(value) <= self.bits) ==>
+            (final(block).instructions@.last().operation matches Operation::Assign { dst, src } && dst == named_scalar(xname(n), 64)
+             && forall|env: Env| env_sorted(env) ==> ((#[trigger] eval_spec(value, env)) matches EvalR::Val(w, v) ==> eval_spec(src, env) == EvalR::Val(64, v) && v < pow2(self.bits as nat))),
+        /*@zero_discards*/ is_zero_reg(self.bad64_reg) ==>
+            (final(block).instructions@.last().operation matches Operation::Assign { dst, src } && dst.name@ == "xzr"@ && !is_arch_name(dst.name@)),
     decreases (if self.bad64_reg == self.bad64_full_reg { 0nat } else { 1nat }),
 //@ enter
     let ghost value0 = value;
@@ -489,8 +602,13 @@ impl AArch64Register {
         broadcast use crate::strmap::axiom_into_string_str;
         lemma_full_rec_ok(*self);
         lemma_expr_wf_bits(value);
+        lemma_xzr_scratch();
         let f = self.full_rec();
         lemma2_to64();
+        assert forall|env: Env| env_sorted(env) implies ((#[trigger] eval_spec(value, env)) matches EvalR::Val(w, v) ==> v < pow2(expr_bits(value)) && w == expr_bits(value)) by {
+            lemma_eval_wf_val(value, env);
+        }
+        if expr_bits(value) <= self.bits { lemma_pow2_mono(expr_bits(value), self.bits as nat); }
         if self.bad64_reg == self.bad64_full_reg {
             assert forall|env: Env| (env_sorted(env) && expr_bits(value) == self.bits) implies #[trigger] write_ok(*self, value, value, env) by {
                 lemma_eval_wf_val(value, env);
